@@ -122,3 +122,88 @@ func init() {
 	libExt["reflect.DeepEqual"] = pure
 	libExtWrites["reflect.DeepEqual"] = func(f *Frame, c *ssa.CallCommon) ([]string, bool) { return nil, false }
 }
+
+// ---- encoding/asn1 (DER): only the TLV framing is modelled.
+//   Marshal(v) = tag, length octets, content; header length derhdr(n) for content length n.
+//   Unmarshal(b, &RawValue) yields Bytes = the content octets of the first TLV in b.
+
+func derTerms(vc *VC, b Val) (clen, hdr string) {
+	vc.declareFun("derclen", []string{"Int", "Int"}, "Int")
+	vc.rawDecl("derhdr", "(define-fun derhdr ((n Int)) Int (ite (< n 128) 2 (ite (< n 256) 3 (ite (< n 65536) 4 5))))")
+	clen = fmt.Sprintf("(derclen (s-ref %s) (s-off %s))", b.T, b.T)
+	return clen, "(derhdr " + clen + ")"
+}
+
+func init() {
+	libExt["encoding/asn1.Marshal"] = func(f *Frame, c *ssa.CallCommon, args []Val, pos token.Pos) ([]Val, bool) {
+		vc := f.vc
+		vc.trust("encoding/asn1.Marshal returns one DER TLV: len(result) = derhdr(contentLen) + contentLen, header 2 bytes iff contentLen < 128")
+		r := vc.allocRef(f.cur, "asn1_ref", f.guard)
+		res := f.freshResults(c, "asn1_Marshal")
+		if len(res) == 2 {
+			b := res[0]
+			clen, hdr := derTerms(vc, b)
+			vc.assume(implies(eq(res[1].T, "inil"), fmt.Sprintf("(and (>= %s 0) (= (s-len %s) (+ %s %s)) (not (= (s-ref %s) 0)))", clen, b.T, hdr, clen, b.T)))
+			// a string field of the marshalled value is contained in the content octets
+			vc.assume(implies(eq(res[1].T, "inil"), "(and (= (s-ref "+b.T+") "+r+") (= (s-off "+b.T+") 0))"))
+		}
+		return res, true
+	}
+	libExtWrites["encoding/asn1.Marshal"] = func(f *Frame, c *ssa.CallCommon) ([]string, bool) { return []string{"next"}, false }
+	unm := func(f *Frame, c *ssa.CallCommon, args []Val, pos token.Pos) ([]Val, bool) {
+		vc := f.vc
+		x := c.Args[1]
+		if mi, ok := x.(*ssa.MakeInterface); ok {
+			x = mi.X
+		}
+		res := f.freshResults(c, "asn1_Unmarshal")
+		pt, ok := x.Type().Underlying().(*types.Pointer)
+		l, lok := f.locOf(x)
+		if !ok || !lok {
+			f.havocReachable(c.Args[1:2])
+			return res, true
+		}
+		if pt.Elem().String() == "encoding/asn1.RawValue" && l.kind == "struct" {
+			vc.trust("encoding/asn1.Unmarshal into a RawValue: Bytes are the content octets of the first TLV of the input")
+			b := args[0]
+			clen, hdr := derTerms(vc, b)
+			comp := vc.regMem(types.Typ[types.Uint8])
+			for _, lf := range structLeaves(l.structT, nil) {
+				name, ft := vc.regField(l.structT, lf.path)
+				fv := f.freshVal("asn1_rv", ft)
+				st := l.structT.Underlying().(*types.Struct)
+				if st.Field(lf.path[0]).Name() == "Bytes" {
+					m := vc.get(f.cur, comp)
+					ok := eq(res[1].T, "inil")
+					vc.assume(implies(ok, fmt.Sprintf("(= (s-len %s) %s)", fv.T, clen)))
+					vc.assume(implies(ok, fmt.Sprintf("(forall ((j Int)) (! (=> (and (<= 0 j) (< j %s)) (= (select (select %s (s-ref %s)) (sidx (s-off %s) j)) (select (select %s (s-ref %s)) (sidx (s-off %s) (+ %s j))))) :pattern ((select (select %s (s-ref %s)) (sidx (s-off %s) j)))))",
+						clen, m, fv.T, fv.T, m, b.T, b.T, hdr, m, fv.T, fv.T)))
+				}
+				vc.set(f.cur, name, store(vc.get(f.cur, name), l.base, fv.T))
+			}
+			return res, true
+		}
+		// any other target: every field becomes an arbitrary value of its type (as for json)
+		return jsonUnmarshal(f, c, args, pos)
+	}
+	libExt["encoding/asn1.Unmarshal"] = unm
+	libExt["encoding/asn1.UnmarshalWithParams"] = unm
+	w := func(f *Frame, c *ssa.CallCommon) ([]string, bool) {
+		x := c.Args[1]
+		if mi, ok := x.(*ssa.MakeInterface); ok {
+			x = mi.X
+		}
+		cs, all := f.addrComps(x)
+		return append(cs, "next"), all
+	}
+	libExtWrites["encoding/asn1.Unmarshal"] = w
+	libExtWrites["encoding/asn1.UnmarshalWithParams"] = w
+}
+
+// Object identifiers are treated as values: Equal is a function of the two slice values (receptor never
+// writes into an OID after building it).
+func init() {
+	m := libModel{uf: "asn1_OIDEqual", ret: "Bool", retGo: "bool"}
+	libPure["(encoding/asn1.ObjectIdentifier).Equal"] = m
+	libPure["asn1.OIDEqual"] = m
+}
